@@ -142,7 +142,13 @@ fn main() {
             let count: usize = args[3].parse().expect("count");
             let seed: u64 = args[4].parse().expect("seed");
             let mut rng = util::Rng::new(seed);
-            if fam == "ep:exhaustive" {
+            if fam == "ep:slotrace" {
+                for c in gen::gen_slotrace() {
+                    let mut out = String::new();
+                    run_block(&c, &mut out);
+                    so.write_all(out.as_bytes()).unwrap();
+                }
+            } else if fam == "ep:exhaustive" {
                 // `count` is the depth
                 for c in gen::gen_exhaustive(count) {
                     let mut out = String::new();
@@ -155,7 +161,7 @@ fn main() {
                     run_block(&c, &mut out);
                     so.write_all(out.as_bytes()).unwrap();
                 }
-            } else if let (Some(prof), false) = (fam.strip_prefix("ep:"), fam == "ep:pipe" || fam == "ep:exhaustive" || fam == "ep:maskpaths") {
+            } else if let (Some(prof), false) = (fam.strip_prefix("ep:"), fam == "ep:pipe" || fam == "ep:exhaustive" || fam == "ep:maskpaths" || fam == "ep:slotrace") {
                 let prof = gen::profile_of(prof);
                 for i in 0..count {
                     let mut r = rng.fork();
